@@ -689,6 +689,7 @@ impl<M: Manager, W: From<Object<M>>> Pool<M, W> {
                 .try_lock()
                 .ok()
                 .map(|s| (s.size, s.creating, s.max_size, s.vec.len())),
+            poisoned: self.inner.slots.is_poisoned(),
         }
     }
 
